@@ -236,3 +236,120 @@ Example C12_example_latched :
             map (tok_code (history s)) (gets (history s)) = [200900; 31900; 31900; 31900; 30400; 30400] /\
             x_dropped (s_mex s 9) = true /\ r_err (s_rdr s 9) = true.
 Proof. eexists. split; [vm_compute; reflexivity|]. repeat split. Qed.
+
+(* ==================================================================== hand-over discipline
+
+   "the library neither reads nor writes it after handing it back" -- statement by statement.
+   The interleaving model above treats "a stretch of code that only touches a frame the acting
+   goroutine holds" as one atomic step that ENDS with the hand-over (ch <- f, Release(f), go ..).
+   That is only faithful if no function of the library touches a frame after the statement that
+   hands it over: from that statement on the frame belongs to the pool, or to another goroutine
+   that may release it at any moment (the destination connection's writeFrames releases a relayed
+   frame as soon as it is written).  The following theorems are about the Go source itself:
+   go2v regenerates, on every run, one abstract program per function that hands a frame over
+   (Gen/GenFrameUse.v frame_use_table; syntax and path semantics in Spec/FrameUseSpec.v):
+   its uses of the frame, (re)bindings, hand-overs, calls that may take the frame, the bool/error
+   variables that tell whether they did, and the control flow between them. *)
+From Coq Require Import String.
+From Verif Require Import Spec.FrameUseSpec Model.FrameUse Gen.GenFrameUse Proofs.FrameUseP.
+Local Open Scope string_scope.
+
+(* For every function of the regenerated table and every execution path of its abstract
+   program (every choice at every branch, every behaviour of its callees that their ownership
+   signatures allow, any number of loop iterations): the trace of what happens to the frame is
+   disciplined -- no use, no hand-over, no passing-on after a successful hand-over (sent on a
+   channel, released, given to a goroutine, taken by a callee), until the variable is bound to a
+   fresh frame.  Uses on the failure branch (the frame was NOT taken) are allowed.
+   [row_live0 kind]: parameters and heap fields start owned, local variables start without a frame. *)
+Theorem C12_no_touch_after_handover : forall fn cls kind body, In (fn, cls, kind, body) frame_use_table ->
+  forall e tr e' k, exec conv_of body e tr e' k -> disciplined (row_live0 kind) tr.
+Proof. exact no_touch_after_handover. Qed.
+Print Assumptions C12_no_touch_after_handover.
+
+(* The assumption made about callees is discharged: every function with a frame parameter keeps
+   its own ownership signature (Model/FrameUse.v conv_table) -- whenever it returns after the
+   frame is gone, the returned values say so (release flag false / sent = true / nil error) -- *)
+Theorem C12_handover_signatures_kept : forall fn cls body, In (fn, cls, 0, body) frame_use_table ->
+  forall e tr e' vs c live', exec conv_of body e tr e' (KRet vs c) -> disc true tr = Some live' ->
+  conv_holds (conv_of fn) vs live'.
+Proof. exact handover_signatures_kept. Qed.
+Print Assumptions C12_handover_signatures_kept.
+
+(* ... and every callee that is given a frame for keeps is such a function of the table, or an
+   interface method all of whose implementations are (with the same signature, unless the caller
+   assumes the frame gone in any case). *)
+Theorem C12_handover_callees_checked : forall fn cls kind body f, In (fn, cls, kind, body) frame_use_table ->
+  In f (callees body) -> callee_ok conv_of frame_use_table frame_use_impls f = true.
+Proof. exact handover_callees_checked. Qed.
+Print Assumptions C12_handover_callees_checked.
+
+(* The checker is sound for ANY table and any signatures, not only today's (this is what turns
+   an edit of the source into a failed obligation rather than into a changed definition): *)
+Theorem C12_checker_sound : forall cv fn cls kind body, row_check cv (fn, cls, kind, body) = true ->
+  forall e tr e' k, exec cv body e tr e' k -> disciplined (row_live0 kind) tr.
+Proof. exact checked_row_disciplined. Qed.
+Print Assumptions C12_checker_sound.
+
+(* The failure branches: the returns at which a function still owns the frame but neither
+   releases it nor hands it on nor tells its caller to release it are exactly the documented
+   leaks on fault paths (each is a [loses] step of the interleaving model); everywhere else a
+   frame that was not taken goes back to the caller with "release it", who releases it once. *)
+Theorem C12_drops_are_the_documented_leaks : table_drops conv_of frame_use_table = expected_drops.
+Proof. exact drops_are_expected. Qed.
+Print Assumptions C12_drops_are_the_documented_leaks.
+
+(* A frame can also be reached through the heap: the statements that store a frame (or a struct
+   bearing one) into a field are exactly the reviewed ones, each of which is a place of the
+   interleaving model (fragment of a reader / of a writer) or a view that lives only while the
+   reader loop holds the frame. *)
+Theorem C12_frame_stores_are_the_reviewed_ones : frame_escapes = expected_escapes.
+Proof. exact escapes_are_expected. Qed.
+Print Assumptions C12_frame_stores_are_the_reviewed_ones.
+
+(* Tie to the interleaving model.  The hand-over statements of the source (chan send of a
+   frame, FramePool.Release, go statement with a frame, fragment.done(), the onDone closure) are
+   exactly the model's list, in source order; its Release statements are, function by function,
+   the FramePool.Release call sites of Gen/GenSites.v; *)
+Theorem C12_handover_sites_generated : map xfer_site xfer_model = frame_xfer_sites.
+Proof. exact xfer_sites_generated. Qed.
+Print Assumptions C12_handover_sites_generated.
+
+Theorem C12_release_sites_agree :
+  forallb (fun f => Nat.eqb (release_count_xfer f) (release_count_pool f))
+          (map (fun r => fst (fst (fst r))) xfer_model ++ map fst pool_sites) = true.
+Proof. exact release_sites_agree. Qed.
+Print Assumptions C12_release_sites_agree.
+
+(* in every run of the model, every hand-over event (a release; a frame entering a send queue,
+   an exchange's receive queue or a call's reader) of a step is performed by a hand-over
+   statement that the list attributes to that step's label; *)
+Theorem C12_model_handovers_are_source_sites : forall ls s,
+  Forall (fun te => forallb (handover_okb (fst te)) (snd te) = true) (run_events false s ls).
+Proof. exact run_handovers_explained. Qed.
+Print Assumptions C12_model_handovers_are_source_sites.
+
+(* and every hand-over statement of the source is performed by one of its labels in a run. *)
+Theorem C12_handover_sites_exercised :
+  exists s, run false (init 1) xfer_witness = Some s /\
+            forallb (row_hit (run_events false (init 1) xfer_witness)) xfer_model = true.
+Proof. exact xfer_rows_exercised. Qed.
+Print Assumptions C12_handover_sites_exercised.
+
+(* ---- non-vacuity ---- *)
+
+(* the relay's fragment sender as it is: report the size, hand the fragment to the destination,
+   release it if it was not taken -- accepted; the same with the report moved after the
+   hand-over (a read of a frame the destination's writer may already have released) -- rejected,
+   and indeed one of its paths is undisciplined *)
+Example C12_example_flush :
+  row_check conv_of (s2z "relayFragmentSender.flushFragment", s2z "wf", 0, ex_flush_good) = true /\
+  row_check conv_of (s2z "relayFragmentSender.flushFragment", s2z "wf", 0, ex_flush_bad) = false /\
+  exists e tr e' k, exec conv_of ex_flush_bad e tr e' k /\ ~ disciplined true tr.
+Proof. exact example_flush_thm. Qed.
+
+(* the table is not empty and contains the functions the property is about *)
+Example C12_example_table :
+  List.length frame_use_table = 30%nat /\ List.length frame_xfer_sites = 23%nat /\
+  existsb (fun r => str_eqb (fst (fst (fst r))) (s2z "relayFragmentSender.flushFragment")) frame_use_table = true /\
+  existsb (fun r => str_eqb (fst (fst (fst r))) (s2z "Connection.writeFrames")) frame_use_table = true.
+Proof. vm_compute. repeat split. Qed.
